@@ -1053,3 +1053,69 @@ func c14r9(rc *core.RC) {
 		rc.Unknown("vm/interface-handlers", token.NoPos, "found %d OpInterface handlers", n)
 	}
 }
+
+// ---- C14.R10 the dynamic type is a fresh variable for every interface value ----
+
+// The OpInterface handler reads the dynamic type of the interface value it enters into a local (typ) that the
+// non-empty-interface branch assigns only when the itab is not nil. The local has to start as nil for every value:
+// it is declared inside the handler. Hoisted to the top of Run ("one slot less per frame") it keeps the type of the
+// interface value entered before, and a nil error or Stringer that follows a pointer-shaped struct is encoded by
+// that struct's program instead of as null.
+func c14r10(rc *core.RC) {
+	p := rc.P
+	n := 0
+	for _, vm := range []string{"vm", "vm_indent", "vm_color", "vm_color_indent"} {
+		fd := p.Func(vm, "Run")
+		if fd == nil || fd.Body == nil {
+			rc.Unknown(vm+".Run", token.NoPos, "interpreter not found")
+			continue
+		}
+		info := p.Info(fd)
+		key := vm + ".Run/case OpInterface/dynamic-type-variable fresh-per-value"
+		var clause *ast.CaseClause
+		ast.Inspect(fd.Body, func(m ast.Node) bool {
+			cc, ok := m.(*ast.CaseClause)
+			if !ok {
+				return true
+			}
+			for _, l := range cc.List {
+				if sel, ok := core.Unparen(l).(*ast.SelectorExpr); ok && sel.Sel.Name == "OpInterface" {
+					clause = cc
+				}
+			}
+			return true
+		})
+		if clause == nil {
+			rc.Unknown(key, fd.Pos(), "OpInterface handler not found")
+			continue
+		}
+		rc.Touch(vm + ".Run")
+		// the variable handed (through conversions) to CompileToGetCodeSet
+		var typ types.Object
+		ast.Inspect(clause, func(m ast.Node) bool {
+			c, ok := m.(*ast.CallExpr)
+			if !ok || core.CalleeName(info, c) != "encoder.CompileToGetCodeSet" || len(c.Args) < 2 {
+				return true
+			}
+			ast.Inspect(c.Args[1], func(k ast.Node) bool {
+				if id, isID := k.(*ast.Ident); isID {
+					if v, isVar := info.Uses[id].(*types.Var); isVar && strings.HasSuffix(v.Type().String(), "runtime.Type") {
+						typ = v
+					}
+				}
+				return true
+			})
+			return true
+		})
+		if typ == nil {
+			rc.Unknown(key, clause.Pos(), "the variable that holds the dynamic type was not found")
+			continue
+		}
+		n++
+		inside := clause.Pos() <= typ.Pos() && typ.Pos() <= clause.End()
+		rc.Check(inside, key, clause.Pos(), "the variable %s that holds the dynamic type of the value being entered is declared inside the handler, so it is nil when a non-empty interface has no itab: declared outside, it keeps the type of the interface value entered before and a nil interface is encoded by that type's program", typ.Name())
+	}
+	if n < 4 {
+		rc.Unknown("vm/interface-handlers-typ", token.NoPos, "found %d OpInterface handlers with a dynamic-type variable", n)
+	}
+}
